@@ -148,7 +148,9 @@ func ruleK10All(r *Report, p *Program) {
 			continue
 		}
 		usesAtoi := reachesCall(fn, func(n string) bool { return n == "strconv.Atoi" }, map[*ssa.Function]bool{})
-		helpers := inlineHelpers([]*ssa.Package{tp}, func(f *ssa.Function) bool { return f.Object() != nil && (f.Object().Exported() || f.Signature.Recv() != nil) })
+		helpers := inlineHelpers([]*ssa.Package{tp}, func(f *ssa.Function) bool {
+			return f.Object() != nil && (f.Object().Exported() || f.Signature.Recv() != nil)
+		})
 		name := calleeName(fn)
 		if usesAtoi {
 			paths := walkSimple(p, fn, nil, helpers)
